@@ -1004,20 +1004,28 @@ class Interp:
                     if n in accs:
                         carried[n] = Rat.const(0)   # accumulate the per-iteration delta
                     self.env[n] = carried[n]
+                elif _is_cond(pre[n]):
+                    self.env[n] = ('truth', Rat.sym('%s~loop%d' % (n, self.fresh)))
         self.loops.append(loop)
         self.block(s.body)
         self.loops.pop()
         for n in assigned:
             post = self.env.get(n)
-            if n in accs and n in carried and isinstance(post, Rat) and isinstance(pre[n], (Rat, tuple)):
+            if n in accs and n in carried and isinstance(post, Rat) and isinstance(pre[n], (Rat, tuple)) \
+                    and not _is_cond(pre[n]):
                 init = self.as_scalar(pre[n])
                 term = post
                 self.env[n] = init + Rat.atom(App('sum', [Rat.sym(loop.var), _b(loop.lo), _b(loop.hi), term]))
-            elif n in carried:
-                self.env[n] = Rat.atom(App('loopout', [Rat.sym(carried[n].__repr__()), Rat.sym(loop.var)]))
-            elif isinstance(post, Rat) and n in pre and pre[n] is not None:
-                # assigned in the loop without carrying: value of last iteration or the pre value (zero-trip)
-                self.env[n] = Rat.atom(App('lastiter', [post, Rat.sym(loop.var)]))
+            elif isinstance(post, (Arr, View)) and (pre.get(n) is post or pre.get(n) is None):
+                pass
+            else:
+                # value after the loop: unknown mixture of the pre-loop value and per-iteration values
+                # (assignments under guards followed by break/continue included) -> opaque, unique per loop
+                opq = Rat.atom(App('loopout', [Rat.sym(n), Rat.sym(loop.var)]))
+                if _is_cond(post) or _is_cond(pre.get(n)):
+                    self.env[n] = ('truth', opq)
+                else:
+                    self.env[n] = opq
 
     def st_While(self, s):
         self.fresh += 1
@@ -1026,10 +1034,14 @@ class Interp:
         self.k.loops.append(loop)
         assigned = _assigned_names(s.body)
         for n in assigned:
-            if isinstance(self.env.get(n), Rat) or n not in self.env or \
-                    (isinstance(self.env.get(n), tuple) and self.env[n] and self.env[n][0] == 'param'):
+            v = self.env.get(n)
+            if isinstance(v, Rat) or n not in self.env or \
+                    (isinstance(v, tuple) and v and v[0] == 'param'):
                 self.fresh += 1
                 self.env[n] = Rat.sym('%s~w%d' % (n, self.fresh))
+            elif _is_cond(v):
+                self.fresh += 1
+                self.env[n] = ('truth', Rat.sym('%s~w%d' % (n, self.fresh)))
         c = self.cond_of(self.ev(s.test), s)
         self.loops.append(loop)
         self.guards.append(c)
@@ -1037,9 +1049,12 @@ class Interp:
         self.guards.pop()
         self.loops.pop()
         for n in assigned:
-            if isinstance(self.env.get(n), Rat):
-                self.fresh += 1
-                self.env[n] = Rat.sym('%s~wout%d' % (n, self.fresh))
+            v = self.env.get(n)
+            if isinstance(v, (Arr, View)):
+                continue
+            self.fresh += 1
+            opq = Rat.sym('%s~wout%d' % (n, self.fresh))
+            self.env[n] = ('truth', opq) if _is_cond(v) else opq
         return False
 
     def st_FunctionDef(self, s):
